@@ -175,6 +175,7 @@ ATTR_NAMES = ["id", "class", "data-x", "aria-label", "x:y", "a.b", "A", "href", 
 
 
 class C01(Prop):
+    observed_from_suite = ["ParseTrace"]
     id = "C01"
     trace_module = "ParseTrace"
     design_ref = "DESIGN.md section 3, C01"
